@@ -94,7 +94,8 @@ def run_check(P, tier, seed, replay=None):
         try:
             obs = P.run(binp, cases)
             terms = [P.term(c, o) for c, o in zip(cases, obs)]
-            ev = vlib.coq_evaluate_cases(prop, P.CHECK_MODULE, P.CASE_TYPE, terms, shard=getattr(P, "SHARD", 300))
+            ev = vlib.coq_evaluate_cases(prop, P.CHECK_MODULE, P.CASE_TYPE, terms, fn=getattr(P, "EVAL_FN", "evaluate"),
+                                         shard=getattr(P, "SHARD", 300))
         except Exception as e:  # model does not evaluate / driver protocol broke
             eval_problem = "correspondence could not be evaluated: %s" % (str(e)[-2500:])
             traceback.print_exc(file=sys.stderr)
@@ -125,7 +126,7 @@ def run_check(P, tier, seed, replay=None):
                 print("  (no prediction text: %s)" % e)
 
     # ---- 4. decide -------------------------------------------------------------------------------
-    known = {f["id"]: f for f in vlib.load_known() if f["property"] == prop}
+    known = {f["id"]: f for f in vlib.load_known() if f.get("property") == prop or prop in f.get("properties", [])}
 
     def attribute(i):
         """finding id explaining the spec failure of case i on the implementation, or None"""
@@ -161,7 +162,8 @@ def run_check(P, tier, seed, replay=None):
             try:
                 mo = P.run(binp, more)
                 mt = [P.term(c, o) for c, o in zip(more, mo)]
-                mev = vlib.coq_evaluate_cases(prop + "s", P.CHECK_MODULE, P.CASE_TYPE, mt, shard=getattr(P, "SHARD", 300))
+                mev = vlib.coq_evaluate_cases(prop + "s", P.CHECK_MODULE, P.CASE_TYPE, mt, fn=getattr(P, "EVAL_FN", "evaluate"),
+                                              shard=getattr(P, "SHARD", 300))
                 mm = set(mev[closest])
                 cand2 = [i for i in mev[nvar] if i in mm and not (
                     P.attribute(more[i], mo[i]) in known and known[P.attribute(more[i], mo[i])]["status"] == "open")]
